@@ -128,10 +128,11 @@ def write_replay(pid, payload):
 
 
 def write_evidence(pid, tier, seed, level, coverage, assumptions, wall, violations):
-    os.makedirs(os.path.join(HERE, "evidence"), exist_ok=True)
+    evdir = os.environ.get("VERIF_EVIDENCE_DIR") or os.path.join(HERE, "evidence")     # seeded-change runs write elsewhere
+    os.makedirs(evdir, exist_ok=True)
     ev = {"property_id": pid, "tier": tier if tier in ("quick", "thorough") else "quick", "seed": seed, "level": level,
           "coverage": coverage, "assumptions": assumptions, "wall_s": round(wall, 2), "violations": violations}
-    with open(os.path.join(HERE, "evidence", f"{pid}.json"), "w") as f:
+    with open(os.path.join(evdir, f"{pid}.json"), "w") as f:
         json.dump(ev, f, indent=1, default=str)
     return ev
 
